@@ -94,6 +94,27 @@ theorem xnor_not_xor (v : Val) (hv : v.ok) (l : List B) : truth v (xnorE l) = !t
 theorem not_not_truth (v : Val) (hv : v.ok) (b : B) : truth v (notB (notB b)) = truth v b := by
   rw [not_sound v hv, not_sound v hv, Bool.not_not]
 
+/-- the value of `logical_xor` does not depend on the order of the arguments -/
+theorem xor_perm_truth (v : Val) (hv : v.ok) (l l' : List B) (h : l.Perm l') :
+    truth v (xorE l) = truth v (xorE l') := by
+  rw [xor_sound v hv, xor_sound v hv]
+  induction h with
+  | nil => rfl
+  | cons x _ ih =>
+    simp only [List.foldl_cons]
+    have key : ∀ (m : List B) (acc : Bool), m.foldl (fun acc b => acc ^^ truth v b) acc
+        = (acc ^^ m.foldl (fun acc b => acc ^^ truth v b) false) := by
+      intro m
+      induction m with
+      | nil => intro acc; simp
+      | cons y t ih2 => intro acc; simp only [List.foldl_cons]; rw [ih2 (acc ^^ truth v y), ih2 (false ^^ truth v y)]; simp [Bool.xor_assoc]
+    rw [key _ (false ^^ truth v x), key _ (false ^^ truth v x), ih]
+  | swap x y t =>
+    simp only [List.foldl_cons]
+    congr 1
+    cases truth v x <;> cases truth v y <;> rfl
+  | trans _ _ ih1 ih2 => exact ih1.trans ih2
+
 /-- the three outcomes of `piecewise()` -/
 theorem piecewise_cases (vec : List (Nat × B)) :
     (pwPrune vec [] = [] ∧ piecewise vec = .error .domain) ∨
